@@ -5,9 +5,12 @@ import YawVerif.Props.C01
 import YawVerif.Props.C03
 import YawVerif.Props.C04
 import YawVerif.Props.C10
+import YawVerif.Props.C12
+import YawVerif.Props.C13
 import YawVerif.Props.C17
 import YawVerif.Drv.Cont
 import YawVerif.Drv.Spec
 import YawVerif.Drv.GenResample
 import YawVerif.Drv.GenBinning
 import YawVerif.Drv.GenPairCount
+import YawVerif.Drv.GenPatchMeta
